@@ -195,7 +195,7 @@ def trees_of_size(n, leaves=('0', '1', 'a', 'b')):
     out = []
     if n == 1:
         for x in leaves:
-            out.append((x,) if x in '01' else ('s', x))
+            out.append((x,) if x in ('0', '1') else ('s', x[-1]))     # 's0' / 's1': the SYMBOLS 0 and 1 (they print like the constants)
     elif n >= 2:
         for r in trees_of_size(n - 1, leaves):
             out.append(('*', r))
